@@ -12,7 +12,12 @@
        (after its own includeSnapshotsFrom, nothing added twice);
      - unknown fields, bad crontabs, unknown or ambiguous includeSnapshotsFrom names, invalid
        selectors and unsupported versions are rejected (and every other single fault the
-       generator injects).
+       generator injects);
+     - "invalid selectors" includes the validity rules that relate TWO fields, which no schema can
+       express (HOOKS.md): a fieldSelector requirement on `metadata.name` is mutually exclusive with
+       nameSelector (any operator, any position); a label selector requirement's operator must fit
+       its values (In / NotIn need values, Exists / DoesNotExist must have none) - clauses
+       [name_field_clash], [bad_label_opvals], and with [bad_include] the predicate [interfield_valid].
 
    The effective configuration is observed through the canonical JSON projection that the
    harness dumps (C10_Model.cfg_json has the same format).  The predicate reads the document
@@ -191,7 +196,56 @@ Definition top_keys_v0 : list bytes := [bs "onStartup"; bs "schedule"; bs "onKub
 Definition unknown_top_field (doc : json) : bool :=
   existsb (fun k => negb (mem_bytes k (if is_v1 doc then top_keys_v1 else top_keys_v0))) (jkeys doc).
 
-Definition must_reject (doc : json) : bool := bad_version doc || bad_include doc || unknown_top_field doc.
+(* ---- validity rules that relate TWO fields of one binding (the OpenAPI schema cannot express them) ----
+
+   HOOKS.md, kubernetes binding: "fieldSelector with 'metadata.name' the field is mutually exclusive
+   with nameSelector" - whatever the operator of the requirement (=, ==, Equals, !=, NotEquals) and
+   wherever it stands in matchExpressions.  A nameSelector that names no object (matchNames empty)
+   selects nothing by name; the clause speaks about a nameSelector with names. *)
+Definition declared_match_names (b : json) : list json :=
+  match jget (bs "nameSelector") b with Some ns => get_arr (bs "matchNames") ns | None => [] end.
+Definition declared_field_exprs (b : json) : list json :=
+  match jget (bs "fieldSelector") b with Some fs => get_arr (bs "matchExpressions") fs | None => [] end.
+Definition on_metadata_name (e : json) : bool := bytes_eqb (get_str (bs "field") e) (bs "metadata.name").
+
+Definition name_field_clash_in (b : json) : bool :=
+  negb (is_nil (declared_match_names b)) && existsb on_metadata_name (declared_field_exprs b).
+
+Definition name_field_clash (doc : json) : bool :=
+  is_v1 doc && existsb name_field_clash_in (get_arr (bs "kubernetes") doc).
+
+(* labelSelector ("standard selector of objects by labels"): a requirement's operator and its values
+   must fit - In / NotIn need a non-empty values list, Exists / DoesNotExist must have none.  This
+   holds for every label selector a v1 binding can declare: kubernetes[].labelSelector,
+   kubernetes[].namespace.labelSelector, and the same two of kubernetesValidating / kubernetesMutating. *)
+Definition op_is (e : json) (names : list bytes) : bool := mem_bytes (get_str (bs "operator") e) names.
+Definition expr_opvals_bad (e : json) : bool :=
+  (op_is e [bs "In"; bs "NotIn"] && is_nil (get_arr (bs "values") e))
+  || (op_is e [bs "Exists"; bs "DoesNotExist"] && negb (is_nil (get_arr (bs "values") e))).
+Definition selector_opvals_bad (s : json) : bool := existsb expr_opvals_bad (get_arr (bs "matchExpressions") s).
+
+Definition declared_label_selectors (b : json) : list json :=
+  (match jget (bs "labelSelector") b with Some s => [s] | None => [] end)
+  ++ (match jget (bs "namespace") b with
+      | Some ns => match jget (bs "labelSelector") ns with Some s => [s] | None => [] end
+      | None => []
+      end).
+
+Definition selector_keys : list bytes := [bs "kubernetes"; bs "kubernetesValidating"; bs "kubernetesMutating"].
+
+Definition bad_label_opvals (doc : json) : bool :=
+  is_v1 doc
+  && existsb (fun k => existsb (fun b => existsb selector_opvals_bad (declared_label_selectors b)) (get_arr k doc))
+             selector_keys.
+
+(* the inter-field validity of a v1 document, clause per rule: names and fields do not clash, every
+   includeSnapshotsFrom name denotes exactly one kubernetes binding of the document, operators fit
+   their values *)
+Definition interfield_valid (doc : json) : bool :=
+  negb (name_field_clash doc) && negb (bad_include doc) && negb (bad_label_opvals doc).
+
+Definition must_reject (doc : json) : bool :=
+  bad_version doc || bad_include doc || unknown_top_field doc || name_field_clash doc || bad_label_opvals doc.
 
 (* ---- P ---- *)
 
